@@ -815,6 +815,83 @@ def run_memcheck(shard, acc):
         acc.nontrivial.add(h)
 
 
+# ---------------------------------------------------------------------------------------------
+# (g) concurrent callers of the record decoders (libc iterators such as getutent() are process-wide)
+# ---------------------------------------------------------------------------------------------
+
+def run_threads_case(case, acc, tmpdir):
+    """4 free-running threads call users() / disk_partitions() / net_if_addrs() at once on fixed inputs (sanitized build):
+    every answer must be the one a lone caller gets."""
+    import threading
+    env = setup()
+    ps, libc, cext = env["ps"], env["libc"], env["cext"]
+    rng = harness.rng_for(case["seed"], "c17t", case["i"])
+    recs = []
+    for n in range(case["nrec"]):
+        recs.append(dict(type=USER_PROCESS if n % 3 else rng.choice([USER_PROCESS, 8, 6, 2]), pid=1000 + n, line=_s(b"pts/%d" % n),
+                         id=_s(b"%d" % (n % 1000)), user=_s(rng.choice([b"alice", b"bob", b"u" * 32, b"carol"])),
+                         host=_s(rng.choice([b":0", b"host.example", b"h" * 256, b""])), session=0, sec=1700000000 + n, usec=0))
+    ucase = dict(kind="utmp", recs=recs, trunc=0)
+    path = os.path.join(tmpdir, "utmp_threads")
+    with open(path, "wb") as f:
+        f.write(b"".join(pack_utmp(r) for r in recs))
+    mpath = os.path.join(tmpdir, "mounts_threads")
+    with open(mpath, "wb") as f:
+        for n in range(60):
+            f.write(b"/dev/sd%c%d /mnt/p%d ext4 rw,relatime 0 0\n" % (97 + n % 26, n, n))
+    harness.mark_current(dict(kind="threads", seed=case["seed"], i=case["i"]))
+    libc.utmpname(path.encode())
+    want_users = expected_users(ucase)
+    want_mounts = cext.disk_partitions(mpath)
+    want_addrs = ps.net_if_addrs()
+    errors, wrong = [], []
+    old = sys.getswitchinterval()
+    barrier = threading.Barrier(4)
+
+    def worker(i):
+        try:
+            barrier.wait()
+            for n in range(case["calls"]):
+                which = (i + n) % 4
+                if which in (0, 1):
+                    got = [tuple(u) for u in ps.users()]
+                    acc.count("concurrent_decoder_calls")
+                    if got != want_users:
+                        wrong.append(("users", len(got), len(want_users), len(set(got)) != len(got)))
+                elif which == 2:
+                    got = cext.disk_partitions(mpath)
+                    acc.count("concurrent_decoder_calls")
+                    if got != want_mounts:
+                        wrong.append(("disk_partitions", len(got), len(want_mounts), False))
+                else:
+                    got = ps.net_if_addrs()
+                    acc.count("concurrent_decoder_calls")
+                    if got != want_addrs:
+                        wrong.append(("net_if_addrs", len(got), len(want_addrs), False))
+        except BaseException as e:  # noqa: BLE001
+            errors.append((i, e))
+    sys.setswitchinterval(1e-6)
+    try:
+        ths = [threading.Thread(target=worker, args=(i,), daemon=True) for i in range(4)]
+        for t in ths:
+            t.start()
+        for t in ths:
+            t.join(300)
+    finally:
+        sys.setswitchinterval(old)
+    viols = []
+    for i, e in errors:
+        viols.append((f"concurrent_exception:{type(e).__name__}", f"thread {i}: {e!r}"))
+    by = {}
+    for w in wrong:
+        by.setdefault(w[0], []).append(w)
+    for fn, ws in by.items():
+        viols.append((f"concurrent_result_differs:{fn}", f"{len(ws)} concurrent {fn}() answers differ from the lone caller's; e.g. "
+                                                         f"{ws[0][1]} records instead of {ws[0][2]}" + (", with duplicates" if ws[0][3] else "")))
+    acc.case(dict(kind="threads", seed=case["seed"], i=case["i"], nrec=case["nrec"], calls=case["calls"]), True, viols)
+    harness.mark_current(None)
+
+
 def classify_report(text):
     m = re.search(r"([\w./-]+\.[ch]):(\d+):\d+: runtime error: ([a-z ]+?)(?: of| by|$| \d| -)", text)
     if m:
@@ -861,6 +938,8 @@ def plan(tier, seed):
         shards.append(dict(kind="mounts", seed=seed, start=s, count=c))
     for i in range(2 if tier == "quick" else 8):
         shards.append(dict(kind="netns", seed=seed, part=i, count=8 if tier == "quick" else 60))
+    for part in range(1 if tier == "quick" else 6):
+        shards.append(dict(kind="threads", seed=seed, part=part, count=3 if tier == "quick" else 40))
     shards.append(dict(kind="memcheck", flavour="plain", seed=seed, nrec=25 if tier == "quick" else 400,
                        n2=3 if tier == "quick" else 60, timeout=800 if tier == "quick" else 3000))
     if tier == "thorough":
@@ -908,6 +987,9 @@ def run_shard(shard):
                     run_netns_case(gen_if_config(harness.rng_for(shard["seed"], "c17n", shard["part"], i), i), acc)
         elif k == "suite":
             run_suite(shard, acc)
+        elif k == "threads":
+            for i in range(shard["count"]):
+                run_threads_case(dict(seed=shard["seed"], i=shard["part"] * 1000 + i, nrec=120, calls=30), acc, tmpdir)
         elif k == "memcheck":
             run_memcheck(shard, acc)
         elif k == "memcheck_child":
@@ -933,6 +1015,8 @@ def run_one(case, acc):
             run_mounts_case(case, acc, tmpdir)
         elif k == "netns":
             run_netns_case(case, acc)
+        elif k == "threads":
+            run_threads_case(dict(seed=case["seed"], i=case["i"], nrec=case.get("nrec", 120), calls=case.get("calls", 30)), acc, tmpdir)
         elif k in ("native", "wrapper"):
             # arguments are recorded in a lossy printable form; re-run the whole function's fuzz shard instead
             if k == "native":
